@@ -287,6 +287,12 @@ class AquaCropModel:
         else:
             if num_steps < 1:
                 raise ValueError("num_steps must be equal to or greater than 1.")
+            if self._clock_struct.model_is_finished:
+                # an earlier call already reached the end of the simulation period:
+                # any further step count overshoots the end and stops there
+                self.__has_model_executed = True
+                self.__has_model_finished = True
+                return True
             self.__start_model_execution = time.time()
             for i in range(num_steps):
 
